@@ -133,6 +133,36 @@ func c06Exec(op string) string {
 			return "bad-op " + c.err.Error()
 		}
 		return "ok " + encStr(string(refEncode(s, html, false, "", "")))
+	case "jdecf":
+		s := c.str()
+		if c.err != nil {
+			return "bad-op " + c.err.Error()
+		}
+		m, err := mxj.NewMapJson([]byte(s)) // JsonUseNumber off (default): numbers are float64
+		var ref interface{}
+		text := s
+		if strings.HasPrefix(strings.TrimLeft(s, " \t\r\n"), "[") {
+			text = `{"object":` + s + `}`
+		}
+		rerr := json.NewDecoder(strings.NewReader(text)).Decode(&ref)
+		note := ""
+		_, isObj := ref.(map[string]interface{})
+		switch {
+		case len(s) == 0:
+		case rerr == nil && isObj:
+			if err != nil || !deepEq(map[string]interface{}(m), ref) {
+				note = "default number mode: an input whose first value encoding/json decodes as an object (or array) was rejected or decoded differently"
+			}
+		case rerr == nil && ref == nil:
+		default:
+			if err == nil {
+				note = "default number mode: input whose first value is not an object/array was accepted"
+			}
+		}
+		if err != nil {
+			return "err | " + note
+		}
+		return "ok | " + note
 	case "jdec":
 		s := c.str()
 		if c.err != nil {
@@ -198,6 +228,8 @@ func c06Describe(op string) string {
 		return fmt.Sprintf("string literal html=%v %q", html, c.str())
 	case "jdec":
 		return fmt.Sprintf("NewMapJson(%q) with JsonUseNumber", c.str())
+	case "jdecf":
+		return fmt.Sprintf("NewMapJson(%q) in the default (float64) number mode", c.str())
 	}
 	return op
 }
@@ -223,6 +255,9 @@ func c06Judge(op, impl, model string) Verdict {
 	}
 	ip := splitModel(impl)
 	v.CorrOK = ip[0] == model
+	if name == "jdecf" {
+		v.CorrOK = strings.HasPrefix(ip[0], "ok") == strings.HasPrefix(model, "ok")
+	}
 	v.Nontrivial = strings.HasPrefix(ip[0], "ok")
 	if name == "jdec" && strings.HasPrefix(ip[0], "err") {
 		v.Tags = append(v.Tags, "jdec:rejected")
@@ -363,6 +398,9 @@ func c06Gen(r *Rng, n int) []string {
 			}
 		}
 		ops = append(ops, "jdec "+encStr(t))
+		if r.P(50) {
+			ops = append(ops, "jdecf "+encStr(t))
+		}
 	}
 	return ops
 }
@@ -385,7 +423,7 @@ func init() {
 func c06Fixed() []string {
 	ops := []string{}
 	for _, t := range []string{" [1]", "\n[{\"a\":1}]", "\t [ ]", "null", " null ", "[1] x", "", "{}", "[]", " {\"a\":1} trailing", "1", "\"s\"", "true"} {
-		ops = append(ops, "jdec "+encStr(t))
+		ops = append(ops, "jdec "+encStr(t), "jdecf "+encStr(t))
 	}
 	// F-JSON-REWRITE: literal backslash-u003c etc. in keys and values
 	for _, m := range []map[string]interface{}{{"a": "\\u003c"}, {"\\u0026": "x\\u003ey"}, {"a": "<&>"}, {"k": "\\\\u003c"}} {
